@@ -34,6 +34,8 @@ ValuedTrxMenu == {[k |-> "trx", z |-> z, bk |-> << [cr |-> x[1], dr |-> x[2], c 
                z \in DaysM, x \in {<<"Equity:Equity", "Assets:A:B">>, <<"Assets:A:B", "Expenses:X">>, <<"Assets:A:B", "Liabilities:L">>}, q \in {2, -1}}
 Menu == IF Family = "valued" THEN ValuedTrxMenu \cup PriceMenu ELSE TrxMenu
 
+MenuSeq == SetToSeq(Menu)
+Idx(d) == CHOOSE n \in 1..Len(MenuSeq) : MenuSeq[n] = d
 KindRank(k) == CASE k = "price" -> 0 [] k = "trx" -> 2
 Rank(d) == (d.z - D1) * 10 + KindRank(d.k)
 
@@ -69,7 +71,7 @@ MkCase(j, f) == [qs |-> 1, ty |-> TY, segs |-> SEGS, comms |-> <<"CHF", "USD">>,
 Init == journal = << >> /\ flags \in FlagSet
 Next == /\ Len(journal) < MaxLen
         /\ \E d \in Menu :
-             /\ (IF journal = << >> THEN TRUE ELSE Rank(journal[Len(journal)]) <= Rank(d))
+             /\ (IF journal = << >> THEN TRUE ELSE Idx(journal[Len(journal)]) <= Idx(d))   \* each multiset once
              /\ journal' = Append(journal, d)
         /\ UNCHANGED flags
 Spec == Init /\ [][Next]_<<journal, flags>>
